@@ -87,7 +87,7 @@ Lemma history_blocked :
          a_txs a = true) /\
       a_txsimm a = true /\
       (forall base, a_pool a base <> ROk) /\
-      (is_single b = true -> forall base, a_delay a base = RBlocked).
+      (forall base, a_delay a base = RBlocked).
 Proof.
   intros cks st pre L set asks e b HP HA H0 PL HT.
   replace (pre ++ OLoad L :: asks ++ [OAsk e b]) with ((pre ++ OLoad L :: asks) ++ [OAsk e b])
@@ -96,7 +96,7 @@ Proof.
   rewrite loads_of_app. cbn [loads_of]. rewrite HA.
   rewrite (set_after_last_load cks st (loads_of pre) L set HP).
   eexists. split; [reflexivity|].
-  destruct (position_plain cks L set e b HP H0 PL HT) as [PA [PP [PR PD]]].
+  destruct (position_plain cks L set e b HP H0 PL HT) as [PA [PP [PR [_ PD]]]].
   destruct (plain_views cks L e b PL) as [E1 _].
   assert (OT : outer_touches cks L b = true) by (rewrite <- E1; exact HT).
   cbn [a_prod a_exec a_txs a_txsimm a_pool a_delay answer].
@@ -106,7 +106,7 @@ Proof.
     apply (exists_touch_hit cks L set _ HP OT).
   - pose proof (exists_touch_hit cks L set _ HP OT) as HH. exact HH.
   - exact PR.
-  - intros S base. unfold delay_reply. rewrite (PD S). reflexivity.
+  - exact PD.
 Qed.
 
 (** non-vacuity: the same body signed by a clean account, then by the listed account *)
